@@ -180,6 +180,38 @@ def _gen_kind(rnd, depth, kind, rc, hints, fcs, packages):
     raise ValueError(kind)
 
 
+def shape(ast):
+    """
+    "rc" / "nh" (only hints) / "nf" (only format constraints) for a syntax tree gen_valid could have made, None for
+    anything else (shrinking a valid tree can leave an invalid or not-implemented combination behind: `[1] O [901]`,
+    `[901][902]`) - the minimiser keeps only candidates that are still valid expressions
+    """
+    if ast is None:
+        return None
+    kind = ast[0]
+    if kind == "k":
+        number = int(ast[1])
+        return "nh" if 500 <= number <= 900 else "nf" if 901 <= number <= 999 else "rc"
+    if kind == "p":
+        return "rc"
+    if kind == "ub":
+        return "rc" if ast[1] == 3 else "nf"
+    left, right = shape(ast[1]), shape(ast[2])
+    if left is None or right is None:
+        return None
+    if kind == "and":
+        return "rc" if "rc" in (left, right) else left if left == right else None
+    if kind in ("or", "xor"):
+        return left if left == right else None
+    if kind == "ta":
+        leaf = lambda node: node[0] in ("k", "ub")  # noqa: E731
+        if left == "rc" and right == "nf" and leaf(ast[2]) or left == "nf" and right == "rc" and leaf(ast[1]):
+            return "rc"
+        if left == "nh" and right == "nf" and leaf(ast[1]) and leaf(ast[2]):
+            return "nh"
+    return None
+
+
 # ------------------------------------------------------------------------------------------ invalid (planted faults)
 def gen_invalid(rnd, rc, hints, fcs):
     """a well-formed but invalid condition expression (ast) and the family it belongs to"""
